@@ -15,6 +15,7 @@
 //        Init) from every cell centre x 6 directions, with snapshots of the navigator state
 //        and memoisation on the protocol state
 //   vnav walk <world.json> <seed> <nwalks> <len> <out.ndjson>     seeded random protocol walks
+//   vnav both <world.json> <depth> <maxcalls> <seed> <nwalks> <len> <out.ndjson>   explore, then walk
 //   vnav replay <world.json> <script.json> <out.ndjson>           one given op sequence
 //   vnav dump <world.json> <out.org.json>                         the OrangeInput that was built
 //   vnav fixture <file.org.json> <seed> <nrays> <nwalks> <npoints> <out.ndjson>
@@ -973,6 +974,285 @@ int run_replay(Geo const& geo, json const& script, verif::NdjsonWriter& out)
     return 0;
 }
 
+//---------------------------------------------------------------------------//
+// FIXTURE MODE: general (non-lattice) geometries.  Raw doubles are logged; tools/navfacts.py
+// adds the oracle's environment facts before TLC validates the trace (spec/RayNavTrace.tla).
+struct FProto
+{
+    char ph{'I'};
+    bool has{false}, nb{false};
+    double nd{0};
+};
+
+json jr(Real3 const& v)
+{
+    return json::array({double(v[0]), double(v[1]), double(v[2])});
+}
+
+struct FixtureDriver
+{
+    Nav& nav;
+    verif::NdjsonWriter& out;
+    std::mt19937_64 rng;
+    Real3 lo, hi;
+    long calls{0};
+
+    double u01() { return std::uniform_real_distribution<double>(0, 1)(rng); }
+    Real3 random_dir()
+    {
+        double cz = 2 * u01() - 1, ph = 2 * 3.14159265358979323846 * u01();
+        double sz = std::sqrt(1 - cz * cz);
+        return make_unit_vector(Real3{sz * std::cos(ph), sz * std::sin(ph), cz});
+    }
+    Real3 random_pos()
+    {
+        Real3 p;
+        for (int k = 0; k < 3; ++k)
+            p[k] = lo[k] + (hi[k] - lo[k]) * (0.02 + 0.96 * u01());
+        return p;
+    }
+    void observe(json& r)
+    {
+        nav.observe(r);
+        ++calls;
+    }
+    // returns false if the history cannot continue (failed / outside)
+    bool init(Real3 const& p, Real3 const& d, FProto& a, int hid, char const* kind)
+    {
+        auto& g = nav.view();
+        json r{{"e", "Init"}, {"h", hid}, {"kind", kind}, {"pos", jr(p)}, {"dir", jr(d)}};
+        g = GeoTrackInitializer{p, d};
+        r["failed"] = g.failed();
+        observe(r);
+        out(r);
+        a = FProto{};
+        if (g.failed() || g.is_outside())
+            a.ph = 'O';
+        return a.ph != 'O';
+    }
+    void find(FProto& a, double m)
+    {
+        auto& g = nav.view();
+        json r{{"e", m > 0 ? "FindMax" : "Find"}};
+        Propagation p;
+        if (m > 0)
+        {
+            r["m"] = m;
+            p = g.find_next_step(real_type(m));
+        }
+        else
+            p = g.find_next_step();
+        bool fin = std::isfinite(p.distance);
+        r["d"] = fin ? json(double(p.distance)) : json(nullptr);
+        r["b"] = p.boundary;
+        observe(r);
+        out(r);
+        a.has = fin && p.distance != 0;
+        a.nd = fin ? double(p.distance) : 0;
+        a.nb = p.boundary && fin;
+        if (!fin)
+            a.ph = 'O';  // no boundary at all: nothing legal can follow
+    }
+    void move_i(FProto& a, double x)
+    {
+        json r{{"e", "MoveI"}, {"x", x}};
+        nav.view().move_internal(real_type(x));
+        observe(r);
+        out(r);
+        a.ph = 'I';
+        a.nd -= x;
+        a.has = a.nd != 0;
+        a.nb = a.nb && a.has;
+    }
+    void move_b(FProto& a)
+    {
+        json r{{"e", "MoveB"}};
+        nav.view().move_to_boundary();
+        observe(r);
+        out(r);
+        a.ph = 'm';
+        a.has = false;
+        a.nb = false;
+        a.nd = 0;
+    }
+    void cross(FProto& a)
+    {
+        auto& g = nav.view();
+        json r{{"e", "Cross"}};
+        g.cross_boundary();
+        r["failed"] = g.failed();
+        observe(r);
+        out(r);
+        a.ph = (g.failed() || g.is_outside()) ? 'O' : 'p';
+    }
+    void set_dir(FProto& a, Real3 const& d)
+    {
+        json r{{"e", "SetDir"}, {"dir", jr(d)}};
+        nav.view().set_dir(d);
+        observe(r);
+        out(r);
+        a.has = false;
+        a.nb = false;
+        a.nd = 0;
+    }
+    double safety()
+    {
+        json r{{"e", "Safety"}};
+        double s = nav.view().find_safety();
+        r["s"] = std::isfinite(s) ? json(s) : json(nullptr);
+        observe(r);
+        out(r);
+        return s;
+    }
+
+    void ray(int hid)
+    {
+        FProto a;
+        if (!init(random_pos(), random_dir(), a, hid, "ray"))
+            return;
+        for (int seg = 0; seg < 400 && a.ph != 'O'; ++seg)
+        {
+            find(a, 0);
+            if (!(a.has && a.nb))
+                break;
+            move_b(a);
+            cross(a);
+        }
+        if (a.ph != 'O')
+            out(json{{"e", "Stuck"}});
+    }
+
+    void walk(int hid, int len)
+    {
+        FProto a;
+        if (!init(random_pos(), random_dir(), a, hid, "walk"))
+            return;
+        double du = 0;  // last unlimited distance in this protocol state (0: none)
+        for (int step = 0; step < len && a.ph != 'O'; ++step)
+        {
+            double c = u01();
+            if (a.ph == 'm')
+            {
+                if (c < 0.45)
+                    set_dir(a, random_dir());
+                else
+                    cross(a);
+                du = 0;
+            }
+            else if (!a.has)
+            {
+                if (du == 0 && c < 0.8)
+                {
+                    find(a, 0);
+                    du = a.has ? a.nd : -1;
+                }
+                else if (du > 0 && c < 0.5)
+                {
+                    // limited search right after the unlimited one: truncated or not
+                    double f = (c < 0.25) ? 0.1 + 0.8 * u01() : 1.1 + u01();
+                    find(a, du * f);
+                }
+                else if (du > 0 && c < 0.7)
+                {
+                    find(a, 0);
+                }
+                else
+                {
+                    set_dir(a, random_dir());
+                    du = 0;
+                }
+            }
+            else
+            {
+                if (c < 0.35 && a.nb)
+                {
+                    move_b(a);
+                    du = 0;
+                }
+                else if (c < 0.65)
+                {
+                    double x = (a.nb || c < 0.55) ? a.nd * (0.05 + 0.9 * u01()) : a.nd;
+                    move_i(a, x);
+                    du = 0;
+                }
+                else if (c < 0.8)
+                {
+                    set_dir(a, random_dir());
+                    du = 0;
+                }
+                else if (c < 0.9 && du > 0)
+                {
+                    find(a, du * (0.1 + 1.8 * u01()));
+                }
+                else if (a.ph == 'I')
+                {
+                    safety();
+                }
+                else
+                {
+                    find(a, 0);
+                    du = a.has ? a.nd : -1;
+                }
+            }
+        }
+    }
+
+    void probe(int hid, int ndirs)
+    {
+        // safety at an interior point, then rays in many directions from the same point
+        FProto a;
+        Real3 p = random_pos();
+        if (!init(p, random_dir(), a, hid, "probe"))
+            return;
+        safety();
+        int n = 0;
+        for (int i = -1; i <= 1 && n < ndirs; ++i)
+            for (int j = -1; j <= 1 && n < ndirs; ++j)
+                for (int k = -1; k <= 1 && n < ndirs; ++k)
+                {
+                    if (!i && !j && !k)
+                        continue;
+                    set_dir(a, make_unit_vector(Real3{real_type(i), real_type(j), real_type(k)}));
+                    find(a, 0);
+                    ++n;
+                }
+        for (; n < ndirs; ++n)
+        {
+            set_dir(a, random_dir());
+            find(a, 0);
+        }
+    }
+};
+
+int run_fixture(std::string const& file, unsigned long seed, int nrays, int nwalks, int nprobes,
+                verif::NdjsonWriter& out)
+{
+    Geo geo;
+    geo.params = std::make_shared<OrangeParams>(file);
+    geo.name = file;
+    geo.lattice = false;
+    Nav nav(geo);
+    FixtureDriver fd{nav, out, std::mt19937_64(seed), {}, {}};
+    auto const& bb = geo.params->bbox();
+    for (int k = 0; k < 3; ++k)
+    {
+        fd.lo[k] = bb.lower()[k];
+        fd.hi[k] = bb.upper()[k];
+        if (!std::isfinite(fd.lo[k]) || !std::isfinite(fd.hi[k]))
+            throw std::runtime_error("fixture without a finite bounding box");
+    }
+    out(json{{"e", "World"}, {"name", file}, {"lo", jr(fd.lo)}, {"hi", jr(fd.hi)}});
+    int hid = 0;
+    for (int i = 0; i < nrays; ++i)
+        fd.ray(hid++);
+    for (int i = 0; i < nwalks; ++i)
+        fd.walk(hid++, 60);
+    for (int i = 0; i < nprobes; ++i)
+        fd.probe(hid++, 64);
+    std::cerr << "fixture " << file << ": histories " << hid << " calls " << fd.calls << std::endl;
+    return 0;
+}
+
 json load_json(std::string const& path)
 {
     std::ifstream in(path);
@@ -1007,6 +1287,20 @@ int main(int argc, char** argv)
             out(json{{"e", "Close"}});
             return rc;
         }
+        if (mode == "both" && argc == 9)
+        {
+            // explore <depth> <maxcalls> then walk <seed> <nwalks> <len> into one trace
+            json w = load_json(argv[2]);
+            Geo geo = build_world(w);
+            verif::NdjsonWriter out(argv[8]);
+            g_out = &out;
+            out(json{{"e", "World"}, {"name", geo.name}});
+            int rc = run_explore(geo, std::atoi(argv[3]), std::atol(argv[4]), out);
+            if (rc == 0)
+                rc = run_walk(geo, std::strtoul(argv[5], nullptr, 10), std::atoi(argv[6]), std::atoi(argv[7]), out);
+            out(json{{"e", "Close"}});
+            return rc;
+        }
         if (mode == "walk" && argc == 7)
         {
             json w = load_json(argv[2]);
@@ -1026,6 +1320,15 @@ int main(int argc, char** argv)
             g_out = &out;
             out(json{{"e", "World"}, {"name", geo.name}});
             int rc = run_replay(geo, load_json(argv[3]), out);
+            out(json{{"e", "Close"}});
+            return rc;
+        }
+        if (mode == "fixture" && argc == 8)
+        {
+            verif::NdjsonWriter out(argv[7]);
+            g_out = &out;
+            int rc = run_fixture(argv[2], std::strtoul(argv[3], nullptr, 10), std::atoi(argv[4]), std::atoi(argv[5]),
+                                 std::atoi(argv[6]), out);
             out(json{{"e", "Close"}});
             return rc;
         }
